@@ -1645,7 +1645,10 @@ def _reduce_blockwise(
     )
 
     if _is_arg_reduction(agg):
-        results["intermediates"][0] = np.unravel_index(results["intermediates"][0], array.shape)[-1]
+        # the index array is float when a NaN fill_value widened the final dtype
+        results["intermediates"][0] = np.unravel_index(
+            results["intermediates"][0].astype(np.intp, copy=False), array.shape
+        )[-1]
 
     result = _finalize_results(results, agg, axis, expected_groups, reindex=reindex)
     return result
